@@ -13,7 +13,9 @@ import (
 	"os"
 	"path/filepath"
 	"sort"
+	"syscall"
 	"testing"
+	"time"
 
 	"github.com/gokrazy/rsync/internal/rsynctest"
 	"github.com/gokrazy/rsync/internal/rsyncwire"
@@ -257,5 +259,61 @@ func TestF10LargeMessageIsWellFormed(t *testing.T) {
 	}
 	if got != len(payload) {
 		t.Errorf("payload bytes = %d, want %d", got, len(payload))
+	}
+}
+
+// F7: --devices without --specials (and vice versa) with a fifo in the tree
+// must neither desynchronise the stream nor lose the fifo when asked for.
+func TestF7DevicesSpecialsAgree(t *testing.T) {
+	for _, tc := range []struct {
+		flag     string
+		wantFifo bool
+	}{{"--devices", false}, {"--specials", true}, {"-D", true}} {
+		t.Run(tc.flag, func(t *testing.T) {
+			tmp := t.TempDir()
+			src, dst := filepath.Join(tmp, "src"), filepath.Join(tmp, "dst")
+			write(t, filepath.Join(src, "a"), "a")
+			if err := syscall.Mkfifo(filepath.Join(src, "fifo"), 0644); err != nil {
+				t.Fatal(err)
+			}
+			write(t, filepath.Join(src, "z"), "z")
+			done := make(chan struct{})
+			go func() {
+				defer close(done)
+				// local copy: client is the sender, in-process server receives
+				rsynctest.Run(t, "gokr-rsync", "--gokr.dont_restrict", "-rlpt", tc.flag, src+"/", dst)
+			}()
+			select {
+			case <-done:
+			case <-time.After(20 * time.Second):
+				t.Fatalf("local copy with %s hangs (stream desynchronised)", tc.flag)
+			}
+			got := ls(t, dst)
+			if !has(got, "a") || !has(got, "z") || has(got, "fifo") != tc.wantFifo {
+				t.Errorf("%s: got %v, want a, z and fifo=%v", tc.flag, got, tc.wantFifo)
+			}
+			// pull from a daemon with the same flags
+			dst2 := filepath.Join(tmp, "dst2")
+			srv := rsynctest.New(t, rsynctest.InteropModule(src))
+			rsynctest.Run(t, "gokr-rsync", "--gokr.dont_restrict", "-rlpt", tc.flag, "rsync://localhost:"+srv.Port+"/interop/", dst2)
+			got = ls(t, dst2)
+			if !has(got, "a") || !has(got, "z") || has(got, "fifo") != tc.wantFifo {
+				t.Errorf("pull %s: got %v, want a, z and fifo=%v", tc.flag, got, tc.wantFifo)
+			}
+		})
+	}
+}
+
+// F15: --delete must reach a daemon when pushing.
+func TestF15PushDeleteReachesDaemon(t *testing.T) {
+	tmp := t.TempDir()
+	src, dst := filepath.Join(tmp, "src"), filepath.Join(tmp, "dst")
+	write(t, filepath.Join(src, "keep"), "k")
+	write(t, filepath.Join(dst, "keep"), "k")
+	write(t, filepath.Join(dst, "extra"), "x")
+	srv := rsynctest.New(t, rsynctest.WritableInteropModule(dst))
+	rsynctest.Run(t, "gokr-rsync", "--gokr.dont_restrict", "-a", "--delete", src+"/", "rsync://localhost:"+srv.Port+"/interop/")
+	if got := ls(t, dst); has(got, "extra") || !has(got, "keep") {
+		t.Errorf("push --delete: got %v, want [keep]", got)
 	}
 }
